@@ -14,8 +14,9 @@ Driver glue for the `Finger` domain.
       mode: 0 run 1 force 2 dry 3 status 4 list-json 5 list 6 summary
     answer: one segment per step joined by " | ":
       [e=<exit> s=<skipped> r=<ran,…|-> b=<bits|-> g=<goodRun of the invoked task before the step> ; ] F <path>=<hex>@<mtime>* ; D <dir>* ; C <keyHex>=<hashHex>* ; M <keyHex>=<mtime>*
-The driver runs `Cfg.fixed` with `H := id` (the stored "hash" is the stream itself; the
-harness maps the real xxh3 value back to the stream it hashed).
+The driver runs `Cfg.fixed` with `H := hId` (both hashes the identity: the stored "checksum" is the
+byte stream followed by its length table; the harness maps the real value — `%x%x` of xxh3-128 of the
+stream, `%016x` of xxh3-64 of the table — back to the two byte strings it hashed).
 -/
 namespace Driver.Finger
 open TaskModel.Finger Driver
@@ -116,14 +117,14 @@ def showObs (o : Obs) : String :=
 def goodBit (pr : Proj) (s : State) : Step → String
   | .inv i _ _ =>
     match pr.tasks[i]? with
-    | some t => showBool (goodRun id pr i t s)
+    | some t => showBool (goodRun hId pr i t s)
     | none => "0"
   | _ => "0"
 
 def render (pr : Proj) : List Step → State → List String
   | [], _ => []
   | st :: rest, s =>
-    let r := step Cfg.fixed id pr st s
+    let r := step Cfg.fixed hId pr st s
     let seg := match r.2 with
       | some o => showObs o ++ " g=" ++ goodBit pr s st ++ " ; " ++ showState r.1
       | none => showState r.1
